@@ -1,7 +1,9 @@
 /-
   C07, record scanners: the GenBank field parsers of `Gts.Model.GenBankParse` never panic and keep
   the S-invariant of `Gts.Lemmas.ParsSorted` (every saved position sorted and bounded), although
-  they `Clear` the stack, `Pop` frames that are not theirs and — the DEFINITION retry — rewrite
+  they `Clear` the stack, `Pop` on a possibly empty one (until 66de3a0 the SOURCE parser also popped
+  a frame that was not its own; that none does any more is `Gts.Lemmas.GbProgress`) and — the
+  DEFINITION retry — rewrite
   the saved frames in place (`patchFrames`, which keeps every frame's length because a joined
   field body is never longer than the bytes it was read from).  The LOCUS line parser is balanced
   and keeps the frame invariant `Fr` itself.  Core Lean only.
